@@ -324,6 +324,8 @@ class FnSpec:
         return NotImplemented
 
     def call_other(self, eng, f, args, kwargs, node):
+        if isinstance(f, Opaque):
+            return Opaque(f.what + "()")
         try:
             if f in CALLABLE_MODELS:
                 return CALLABLE_MODELS[f](eng, args, kwargs, node)
@@ -427,6 +429,19 @@ class FnSpec:
             raise OutOfSubset("multi-generator comprehension at line %s" % e.lineno)
         g = e.generators[0]
         it = eng.eval(g.iter, env)
+        if isinstance(it, Opaque):
+            # iteration over a value the engine does not look into (only ever built for log lines): the body is
+            # still evaluated once, on opaque items, so that any call it makes is seen by the models
+            sub = _child_env(env)
+            _assign_opaque(eng, g.target, sub)
+            for cond in g.ifs:
+                eng.eval(cond, sub)
+            if kind == "dict":
+                eng.eval(e.key, sub)
+                eng.eval(e.value, sub)
+            else:
+                eng.eval(e.elt, sub)
+            return Opaque("comprehension")
         conc = eng.concrete_iter(it)
         if conc is not None:
             out = []
@@ -784,6 +799,8 @@ class FnSpec:
                 return o[k]
             eng.oblige("key_present", False, kind="safety:KeyError", node=node)
             raise _PathEnd()
+        if isinstance(o, Opaque):
+            return Opaque(o.what + "[]")
         h = self.getitem_other(eng, o, k, node)
         if h is not NotImplemented:
             return h
@@ -895,6 +912,16 @@ class FnSpec:
 
 
 NESTED_CONTRACTS = {}
+
+
+def _assign_opaque(eng, t, env):
+    if isinstance(t, ast.Name):
+        env[t.id] = Opaque(t.id)
+    elif isinstance(t, (ast.Tuple, ast.List)):
+        for x in t.elts:
+            _assign_opaque(eng, x, env)
+    else:
+        raise OutOfSubset("comprehension target")
 
 
 def _wrap_concrete(v):
@@ -1096,6 +1123,8 @@ def map_method(spec, eng, m, name, args, kwargs, node):
         return Sym(z3.If(m.has(kt), m.get(kt), m.vty.lift(default).term), m.vty)
     if name == "items":
         return ItemsIter(m)
+    if name == "values":
+        return Opaque("values")
     if name == "keys":
         if m.keys is None:
             raise OutOfSubset("keys() of a map without key order")
@@ -1432,6 +1461,8 @@ def m_all(eng, args, kwargs, node):
 
 def m_str(eng, args, kwargs, node):
     v = args[0]
+    if isinstance(v, Opaque):
+        return Opaque("str()")
     if isinstance(v, str):
         return v
     if isinstance(v, Sym) and v.ty == TStr:
